@@ -510,6 +510,8 @@ namespace R
             }
             case BYTES2: return pos + 2 <= end ? ok( pos + 2 ) : fail();
             case EVERYTHING: return ok( end );
+            case DISCARD: return ok( pos );
+            case REQUIRE2: return pos + 2 <= end ? ok( pos ) : fail();
             case RAISE_MSG: return { RAISE, 0, WHO_RAISE_MSG, pos, pos, -1 };
             // ---- ascii convenience atoms: doc/Rule-Reference.md
             case KEYWORD_AB: {  // seq< string< C... >, not_at< identifier_other > >
